@@ -2199,6 +2199,7 @@ def cases_asmtables(tier):
             add(ASM_CORE, 'coolant_subchannel,duct_mw,' + pin_types, '6,7', zs_)
             add(ASM_CORE, pin_types, '1,2', zs_, 'odd')
         add(ASM_CORE, 'coolant_subchannel,duct_mw', '6', 'planes')       # the id after the vacancy that is still a list index
+        add(ASM_CORE, 'coolant_subchannel,duct_mw', '4,2', 'planes')     # assemblies listed in descending order
         add('F', ','.join(TABLE_TYPES), '1', 'between', 'odd')
         add('F', ','.join(TABLE_TYPES), '1', 'mixed', 'big')
     else:
@@ -2560,6 +2561,22 @@ def run_dumps_C14(c):
 
 def run_dumps_C15(c):
     return _dumps_view(c, 'C15')
+
+
+# kinds of the asmtables probe that fail on the unchanged tree for reasons outside the twenty properties (DESIGN 11.5)
+ASMT_OUTSIDE = ('report-asmtables-duct-average-outer-wall-empty', 'report-asmtables-file-name',
+                'report-asmtables-heights-duplicated', 'report-asmtables-lowfi-nodes-in-subchannel-rows',
+                'report-asmtables-aborted', 'report-asmtables-heights')
+
+
+def run_asmtables_C06(c):
+    """view for C06: a per-assembly table holds the values of the assembly it is named after (everything the probe
+    compares except the kinds listed in ASMT_OUTSIDE)"""
+    r = run_asmtables(c)
+    keep = [v for v in r['violations'] if v['kind'] not in ASMT_OUTSIDE]
+    r['violations'] = keep
+    r['outcome'] = 'ok' if not keep else 'violation'
+    return r
 
 
 def run_asmtables_C18(c):
